@@ -372,7 +372,7 @@ Section Main.
     destruct Hop; subst op; simpl; rewrite (shape_eqb_neq _ _ Hne); reflexivity.
   Qed.
 
-  (* multiplying arrays whose shapes admit no dot / matrix-vector / vector-matrix / matrix-matrix product
+  (* multiplying arrays whose shapes allow no dot / matrix-vector / vector-matrix / matrix-matrix product
      (inner dimensions differ, or a tensor is involved) *)
   Theorem product_mismatch_error : forall ka sa da kb sb db,
     proper (Arr ka sa da) -> proper (Arr kb sb db) -> product_shape sa sb = None ->
@@ -1103,3 +1103,21 @@ Section Trees.
       split; [constructor; exact Hl | exact Hp].
   Qed.
 End Trees.
+
+(* ------------------------------------------------------------------ single-element arrays (outside the property's quantifier) *)
+(* as right operand of *, / and ^ a one-element array of any shape acts as the number it holds *)
+Lemma numberlike_acts_as_scalar : forall negpow inv spow op ks shs ds ko sho d2,
+  op = Mul \/ op = Div \/ op = Pow ->
+  proper (Arr ks shs ds) -> sprod sho = 1%nat ->
+  py_binop negpow inv spow op (Arr ks shs ds) (Arr ko sho d2)
+  = py_binop negpow inv spow op (Arr ks shs ds) (Num ko (item d2)).
+Proof.
+  intros negpow inv spow op ks shs ds ko sho d2 Hop [Hl Hp] Ho.
+  pose proof (proper_not_numberlike _ Hp) as Hn.
+  destruct Hop as [-> | [-> | ->]]; simpl.
+  - unfold mul_arr. rewrite Hn, Ho. reflexivity.
+  - unfold div_arr. rewrite Ho. reflexivity.
+  - unfold pow_arr. rewrite Hn.
+    destruct shs as [|m [|n [|x y]]]; try reflexivity.
+    destruct (Nat.eqb m n); [|reflexivity]. rewrite Ho. reflexivity.
+Qed.
